@@ -10,7 +10,7 @@ FORMAT = ("kinds 1..3 [kind 1=AimdController 2=Aimd 3=Vegas; p0..p6 (initial, mi
           "dec_num|beta, dec_den, latency threshold ns); npre; (code arg)*; nthreads; {ncalls; (code arg)*}*; "
           "nsched; thread-id*] calls 0 record_success(arg: latency ns) 1 record_failure 2 record_successes(arg) "
           "3 limit(); each schedule entry = ONE atomic operation -> per entry [op 0 skip/1 load/2 store/3 cas/"
-          "4 rmw; return value of the call completed by this step or -1; limit()], per worker [steps; results], "
+          "4 rmw; return value of the call completed by this step or -1; limit()] after the prelude's return values, per worker [steps; results], "
           "[limit()].  kind 4 [4; initial; min; max; increase_by; dec_num; dec_den; threshold_ms; (op a b)*] "
           "op 1 poll_ready 2 call a 3 poll a 4 complete a b(0 ok 1 err 2 panic) 5 drop a 6 advance a ms "
           "7 inner readiness a(0 ready 1 pending 2 err) 8 call a with panicking inner.call() -> per event "
@@ -98,6 +98,9 @@ def corpus():
     warm = [(S, 1024)] * 9 + [(S, 2048)]
     out.append(mk(3, [10, 1, 20, 3, 6], warm, [[(S, 4096)], [(F, 0)]], [0, 0, 0, 1, 0, 0, 0, 0, 0, 0, 1, 0]))
     out.append(mk(3, [10, 1, 20, 3, 6], warm, [[(S, 512), (LIM, 0)], [(S, 8192)]], [0, 1] * 10))
+    # Vegas pushed against max (equal RTTs: queue 0 < alpha) and against min (queue > beta)
+    out.append(mk(3, [3, 1, 3, 3, 6], [(S, 1024)] * 10, [[(S, 1024), (LIM, 0)], [(S, 1024)]], [0, 1] * 12))
+    out.append(mk(3, [2, 2, 9, 3, 6], [(S, 1024)] + [(S, 65536)] * 9, [[(S, 65536), (LIM, 0)], [(S, 65536)]], [0, 1] * 12))
     # the service: two calls cancelled while in flight (the upstream defect shape), limit 2
     out.append(mk_svc([2, 1, 2, 1, 1, 2, 100],
                       [(1, 0, 0), (2, 0, 0), (1, 0, 0), (2, 1, 0), (1, 0, 0), (3, 0, 0), (3, 1, 0),
@@ -244,11 +247,20 @@ def generate(rng, tier):
             alpha = [(S, 500), (S, 1000), (S, 1001), (S, 90000), (F, 0), (LIM, 0)]
             pre = [rng.choice(alpha[:5]) for _ in range(rng.choice([0, 0, 3]))]
         else:
-            mx = rng.choice([2, 5, 20, 100])
-            mn = rng.choice([0, 1, mx // 2])
-            params = [rng.choice([mn, mx, (mn + mx) // 2, mx + 1]), mn, mx, rng.choice([0, 1, 3]), rng.choice([3, 6, 1])]
-            alpha = [(S, rng.choice(RTTS)) for _ in range(4)] + [(F, 0), (LIM, 0)]
-            pre = [(S, rng.choice(RTTS[:6])) for _ in range(rng.choice([0, 8, 9, 10, 12]))]
+            mx = rng.choice([2, 3, 5, 20, 100])
+            mn = rng.choice([0, 1, mx // 2, mx - 1])
+            params = [rng.choice([mn, mx, mx, (mn + mx) // 2, mx + 1]), mn, mx, rng.choice([0, 1, 3]), rng.choice([3, 6, 1])]
+            mode = rng.randrange(3)
+            if mode == 0:      # all RTTs equal: queue estimate 0 -> increase (pushes against max)
+                base = rng.choice(RTTS[:6])
+                alpha = [(S, base)] * 4 + [(F, 0), (LIM, 0)]
+                pre = [(S, base)] * rng.choice([9, 10, 12])
+            elif mode == 1:    # one tiny RTT then big ones: large queue estimate -> decrease (against min)
+                alpha = [(S, rng.choice(RTTS[6:])) for _ in range(4)] + [(S, RTTS[0]), (LIM, 0)]
+                pre = [(S, RTTS[0])] + [(S, rng.choice(RTTS[5:])) for _ in range(rng.choice([8, 9, 11]))]
+            else:
+                alpha = [(S, rng.choice(RTTS)) for _ in range(4)] + [(F, 0), (LIM, 0)]
+                pre = [(S, rng.choice(RTTS[:6])) for _ in range(rng.choice([0, 8, 9, 10, 12]))]
         progs = [[rng.choice(alpha) for _ in range(rng.randint(1, 6))] for _ in range(nth)]
         total = sum(len(p) for p in progs) * (3 if kind != 3 else 8)
         out.append(mk(kind, params, pre, progs, rand_sched(rng, nth, total)))
@@ -266,16 +278,18 @@ def generate(rng, tier):
 def split_trace(s, t):
     kind, params, pre, progs, sched = parse(s)
     n = len(sched)
-    need = 3 * n + sum(1 + len(p) for p in progs) + 1
+    need = len(pre) + 3 * n + sum(1 + len(p) for p in progs) + 1
     if len(t) != need:
         return None
+    pre_rets = t[:len(pre)]
+    t = t[len(pre):]
     entries = [t[3 * i:3 * i + 3] for i in range(n)]
     pos = 3 * n
     per = []
     for p in progs:
         per.append((t[pos], t[pos + 1:pos + 1 + len(p)]))
         pos += 1 + len(p)
-    return entries, per, t[pos]
+    return entries, per, t[pos], pre_rets
 
 
 def monitor_alg(s, t):
@@ -283,8 +297,11 @@ def monitor_alg(s, t):
     sp = split_trace(s, t)
     if sp is None:
         return "malformed or panicking run: %s" % t[:12]
-    entries, per, final = sp
+    entries, per, final, pre_rets = sp
     mn, mx = params[1], params[2]
+    for c, r in zip(pre, pre_rets):
+        if (c[0] == LIM and not (mn <= r <= mx)) or (c[0] != LIM and r != 2):
+            return "prelude call %s returned %d" % (c, r)
     done_idx = [0] * len(progs)
     for k, (op, done, lim) in enumerate(entries):
         if not (mn <= lim <= mx):
@@ -421,7 +438,7 @@ def classify(s, t):
     sp = split_trace(s, t)
     if sp is None:
         return out + ["malformed"]
-    entries, per, final = sp
+    entries, per, final, pre_rets = sp
     lims = [e[2] for e in entries] + [final]
     if any(l == params[1] for l in lims):
         out.append("at_min")
